@@ -300,12 +300,17 @@ def main(tier, seed):
         # (registered in the session list and passed by name: the isotherm constructor cannot take an Adsorbate object)
         argon = pygaps.Adsorbate("c17-argon", store=True, backend_name="ARGON", molecular_diameter=0.336, polarizability=1.63e-3,
                                  magnetic_susceptibility=3.25e-8, surface_density=8.52e18)
-        ads_obj = {"N2": pygaps.Adsorbate.find("N2"), "Ar": argon}
+        stored = pygaps.Adsorbate("c17-stored-gas", store=True, molecular_diameter=0.32, polarizability=2.1e-3, magnetic_susceptibility=4.0e-8,
+                                  surface_density=7.0e18, liquid_density=1.25, molar_mass=41.5, saturation_pressure=120000.0)
+        ads_obj = {"N2": pygaps.Adsorbate.find("N2"), "Ar": argon, "stored": stored}
         Hc = adsorbents["CarbonHK"]
         cfgs = []
         for c in space["hist_configs"]:
             ao, T = ads_obj[c["ads"]], dec_dec(c["T"])
-            direct = coolprop_direct(ao, T)
+            if c["ads"] == "stored":
+                direct = {"rhoLmass": 1.25, "M": 41.5}         # the stored properties given above (input data)
+            else:
+                direct = coolprop_direct(ao, T)
             if direct is None:
                 raise MachineryError("CoolProp reference not available for the history scenarios")
             aenc = {"d": enc(ao.get_prop("molecular_diameter")), "alpha": enc(ao.get_prop("polarizability")), "chi": enc(ao.get_prop("magnetic_susceptibility")),
